@@ -9,7 +9,181 @@ NOTE_COMMON = ('Trusted base: Lean 4.33.0 kernel; axioms propext/Classical.choic
                'translators that regenerate lean/GIVerif/Gen/*.lean from /repo; the correspondence harness (sampling) '
                'that ties the hand-written executable model to the real code; the Lean compiler for running the model. ')
 
+TECH = 'Lean 4 theorems over an executable model + tables regenerated from /repo + differential correspondence with the real code'
+
 CHECKS = {
+    'C01': dict(
+        text='Theorems (all nodes, all annotation sets, over the model of MainTransformer._apply_annotations_param_ret_common / '
+             '_apply_transfer_annotation / array / element-type / callback / closure handling and of GIRWriter._write_parameter/'
+             '_write_return_type/_write_type): every annotation valid at its site (validity phrased through the transformer\'s own '
+             'pointer test) yields the documented attribute value; every invalid one emits a warning and leaves that attribute as '
+             'without it (nullability, transfer, lift to container, callback annotations, return values); written closure/destroy/'
+             'length indices name the referenced parameter or the writer errors; (array length=p) makes p follow the array\'s '
+             'direction and nothing else; frame (_partial: other parameters untouched except length/closure/destroy targets). '
+             'Counterexample theorems pin the places where the unchanged code departs from the statement (known findings). '
+             'Validated only: type-string resolution against namespaces, pass-3 interaction, the real pipeline end to end.',
+        note='Modelled not verified: the C lexer (inputs start at the symbol stream), namespace lookup of (type)/(element-type) strings (parameter of the model).',
+        design='Part B C01'),
+    'C02': dict(
+        text='Theorems: the generated ast.type_names table maps the spellings named in the statement as stated and only to GIR types '
+             '(decide over the whole regenerated table); _canonicalize_ctype commutes with trailing stars and is idempotent (all strings); '
+             'the written c:type is the documented spelling for every type tree (base with const/volatile, one star per pointer level, '
+             'parameter arrays decay once) and the lookup ctype has exactly ptrDepth stars; transfer defaults equal the documented rule '
+             'for every (position, direction, caller-allocates, type class, const); callback/user_data/destroy/async grouping and the '
+             'trailing GError** rule for every parameter list; nullable gpointer rule. Source shapes of all modelled functions are pinned '
+             'by decide theorems over skeletons re-extracted each run. Validated only: the real pipeline output for generated declarations.',
+        note='Modelled not verified: the C lexer; lookup_typenode results are a parameter (TyInfo).',
+        design='Part B C02'),
+    'C03': dict(
+        text='Theorems: frame — the annotation result of a node depends only on the blocks stored under its own finite key set '
+             '(name, Class:prop, Class::sig, Struct.field, invoker), so a block can never affect an unrelated element (all block maps, all '
+             'nodes); the key sets of distinct element kinds are disjoint; per annotation/tag mapping theorems (skip, Since, Deprecated, '
+             'Stability, attributes, constructor/method roles, set/get-property, finish/sync/async, emitter, ref/unref/copy/free/'
+             'get-/set-value-func, value) give the GIR attribute and target named in the statement; rename-to fold keeps shadows/'
+             'shadowed-by mutually consistent for any number of competing annotations; a vfunc without its own block inherits exactly '
+             'its invoker\'s. Validated only: whole-namespace scans with near-colliding names (presence on target, absence elsewhere).',
+        note='Modelled not verified: the C lexer; the comment parser is C10/C11\'s subject (blocks are inputs here).',
+        design='Part B C03'),
+    'C04': dict(
+        text='Theorems (all strings / all namespaces): prefix stripping (current namespace wins over includes, first matching prefix, '
+             '`_` separator, leading underscore excluded, foreign prefix left out); _split_uscored_by_type returns the LONGEST '
+             '`_`-boundary prefix registered and the exact remainder, none iff no boundary prefix is registered; _is_method soundness '
+             '(first parameter is a class/interface/record/union/boxed of this namespace and annotated or carrying its prefix); '
+             'constructor soundness and method/constructor naming as _partial theorems whose extra hypotheses exclude exactly two '
+             'confirmed defect classes (witness theorems, known findings); uniqueness invariant of the namespace container under '
+             'append/float/remove along the pipeline model; CamelCase to underscores incl. the acronym rule. Regex shapes are pinned per run. '
+             'Validated only: re.sub semantics, the whole pairing on generated declaration sets x prefix configurations.',
+        note='Modelled not verified: the C lexer, CPython re/str (re-expressed, compared each run).',
+        design='Part B C04'),
+    'C05': dict(
+        text='Theorems over the model of IntrospectablePass.validate (all namespaces): the non-introspectability propagation is a '
+             'terminating fixed point; after validate every callable/field/property/alias left introspectable only uses types that '
+             'resolve to fundamentals or introspectable definitions, has no varargs/va_list/long long/long double, states transfer, '
+             'scope and element types (closure theorem on the executable well-formedness predicate girWellFormed); written indices are in '
+             'range or the writer errors. girWellFormed (Lean, decidable) is also evaluated on every GIR the real pipeline emits in the '
+             'run and on every shipped/expected GIR in the tree: that is the failing-input search.',
+        note='Modelled not verified: earlier passes establish the AST invariants assumed (C01/C03/C04/C12 models); the C lexer.',
+        design='Part B C05'),
+    'C06': dict(
+        text='Theorems: every blob layout measured from gitypelib-internal.h by a compiled probe each run is well formed (no overlap, '
+             'bit-fields inside their unit), has the documented size and the size girmodule.c writes into the header (decide +kernel over '
+             'generated layouts); a generic struct codec round-trips for every well-formed layout and all field values that fit, encoding '
+             'one field leaves the others unchanged; align4 is the least multiple of 4 not below n and all section offsets computed by '
+             'the size model are aligned and inside the file; the complete field-by-field decoder is total and never reads out of '
+             'bounds on any byte string. The GIR->blob SEMANTIC mapping of girparser.c/girnode.c is not re-modelled: it is decided by '
+             'translation validation — the Lean decoder decodes the bytes the real g-ir-compiler wrote and the result is compared with '
+             'the Api derived from the GIR by the schema rules (validated, not proved); plus g_typelib_validate and compile-twice identity.',
+        note='Modelled not verified: GMarkup, the GIR->node->blob mapping (validated by decode-and-compare), the hand-written GLib declarations (glibshim).',
+        design='Part B C06'),
+    'C07': dict(
+        text='Theorems for ALL values of the modelled fragment (types, parameters, return values, everything written through '
+             '_write_callable incl. docs, attributes, positions, version/deprecated/stability): vocabulary — every attribute/child/text '
+             'the writer can emit is read by the reader (tables re-extracted from girwriter.py/girparser.py each run; listed exceptions and '
+             'one defect); parse(write m) = canon m and = m for canonical m; write(parse(write m)) = write m. `_partial` names: hypotheses '
+             'exclude exactly the confirmed reader defects (witness theorems; known findings). Whole-file byte identity for every node '
+             'kind is VALIDATED on the real GIRWriter/GIRParser (w1=w2=w3 and an AST-equality walk) on generated namespaces and every '
+             'shipped/expected GIR.',
+        note='Modelled not verified: ElementTree, int() on non-ASCII, the text level (C20).',
+        design='Part B C07'),
+    'C08': dict(
+        text='Theorems (all member lists): the model of GI_ALIGN is the least multiple of the alignment not below n; the struct and union '
+             'loops of giroffsets.c compute exactly the declarative System V rule (which has a unique solution); results are sane '
+             '(aligned, ordered, non-overlapping, inside the size) and closed under nesting/arrays; a member of unknown size forces '
+             'size=alignment=-1 and the unknown marker from that member on, also as stored in the blobs; enum storage can represent every '
+             'member (`_partial` + witness for the negative-and-above-INT32_MAX class); stored 16-bit field offsets (`C08_stored` + witness). '
+             'Leaf sizes come from a probe of gi_type_tag_get_ffi_type compiled each run. NOT provable, validated each run against gcc: '
+             'that the declarative rule is what the C compiler does here.',
+        note='Modelled not verified: gcc as the ABI oracle; the hand-written GLib declarations; libffi type table (measured).',
+        design='Part B C08'),
+    'C09': dict(
+        text='Theorems: for all section counts and all in-range indices the accessor offset arithmetic of giobjectinfo.c/giinterfaceinfo.c/'
+             'gistructinfo.c/giunioninfo.c/gienuminfo.c/gicallableinfo.c equals the layout position of the i-th member of that section '
+             '(incl. odd interface counts, fields with embedded callbacks); attribute lookup returns the first blob of the node for every '
+             'choice bsearch may make and iteration yields exactly the node\'s attributes in table order; type decoding agrees with the '
+             'C06 decoder. Validated only: a C walker over the public API and g-ir-generate\'s XML compared with the source GIR.',
+        note='Modelled not verified: girwriter.c (typelib->GIR text), bsearch (any index with equal key), the hand-written GLib declarations.',
+        design='Part B C09'),
+    'C10': dict(
+        text='Theorems: the annotation tokenizer (_parse_annotations/_parse_annotation/option parsers) reads back exactly what the '
+             'serializer emits for every well-formed annotation list; an annotation field continued over k lines parses as the '
+             'single-line field; line-pattern shapes and the annotation vocabulary are pinned to the source each run. Block-level '
+             'round trip and layout independence are validated differentially against the real parser/writer (and proved as far as '
+             'the block model reaches — see the Props file).',
+        note='Modelled not verified: CPython re (each pattern re-expressed as a direct scanner and compared with re on every run).',
+        design='Part B C10'),
+    'C11': dict(
+        text='Theorems for ALL strings: the tokenizer layer never reaches a partial Python operation with a bad argument (explicit Except '
+             'steps), except the one confirmed len(None) class (witness + _partial + known finding); a failing _parse_annotations leaves '
+             'the annotations exactly as before and is always reported; caret positions lie inside the quoted line; the message log '
+             'counts every diagnostic independently of display suppression and warn_fatal fails exactly when something was counted. The '
+             'block level (line matchers, state machine, validate) is covered by the differential harness and statement oracles on the '
+             'real parser for arbitrary strings, not by a theorem.',
+        note='Modelled not verified: CPython re / str.lower table.',
+        design='Part B C11'),
+    'C12': dict(
+        text='Theorems: property flags equal bits 0..3 of the reported word for every integer; the resulting parent is the first element '
+             'of the reported chain that is known (hidden intermediates skipped, default GObject.Object); interfaces/prerequisites/'
+             'properties/signals are exactly those reported, in order; type-struct and is-gtype-struct-for point at each other; boxed '
+             'attaches to the same-named record/union; function-pointer members whose first parameter is the instance become vfuncs and '
+             'no others; get-type functions are removed; the error domain lands on the enum found by longest-prefix lookup. '
+             'Validated only: generated (declarations, dump XML) pairs through the real GDumpParser/MainTransformer.',
+        note='Modelled not verified: gdump.c and a real GObject library (inputs start at the dump XML); the C lexer.',
+        design='Part B C12'),
+    'C13': dict(
+        text='Theorems: for >=2 members none a word-prefix of another the common prefix is the shared leading whole words and member names '
+             'are lower(ident minus it), independent of member order (all permutations); with no shared word or <2 members names are '
+             'lower(ident minus namespace prefix) and an enum that cannot be named is refused, never given garbage names; members keep '
+             'declaration order, c:identifier and exact decimal value (toInt(repr v)=v for all integers); constants: strings verbatim, '
+             'booleans true/false, signed as written, unsigned of width w in [0,2^w) congruent mod 2^w (`_partial`: excludes exactly '
+             'platform-width unsigned types and two-typedef chains — witness theorems, known findings).',
+        note='Modelled not verified: double constants (validated only); the C lexer.',
+        design='Part B C13'),
+    'C14': dict(
+        text='Theorems with the perfect hash as an arbitrary function h: soundness — whatever h and the table contain, a lookup by name '
+             'answers only an entry with exactly that name, so an absent name is never answered with another entry; completeness under '
+             'injectivity/range of h on the (distinct) names with the table built by pack; the linear fallback finds the first entry with '
+             'that name and both paths agree; GType-name and error-domain scans return the first matching registered-type/error-enum '
+             'entry (`_partial` + witness for <glib:boxed>); repository-level lookups agree; the GType prefix filter characterised. '
+             'Checked per run: cmph\'s injectivity/range on every compiled name set.',
+        note='Modelled not verified: cmph/BDZ (h is a parameter with a per-run checked assumption); the hand-written GLib declarations.',
+        design='Part B C14'),
+    'C15': dict(
+        text='Theorems over tables re-extracted every run from girwriter.py (what it can emit per element) and girparser.c (what each '
+             'parser state handles or passes through): every element the writer emits in a context is handled or explicitly passed '
+             'through; every attribute/enumerated value the writer can produce is recognised by the C side (`_partial` + witnesses '
+             'where the unchanged code differs); the passthrough depth counter returns to the enclosing state after any well-nested '
+             'subtree, so a non-introspectable element removes exactly its own subtree. The end-to-end claim is VALIDATED on the real '
+             'pair: scanner pipeline output -> real g-ir-compiler -> decoded typelib compared with the GIR.',
+        note='Modelled not verified: GMarkup; the node->blob mapping (C06).',
+        design='Part B C15'),
+    'C16': dict(
+        text='Theorems: every order the writer imposes (sorted(...), nscmp) is a function of the set of siblings — invariant under every '
+             'permutation given pairwise distinct keys; get_main_position is a function of the position SET; typedef-before-struct and '
+             'struct-before-typedef build the same record; the block dictionary is independent of block and file order for distinct '
+             'identifiers (duplicates are never silent); decide theorems pin the sort sites, unsorted emissions and set iterations of '
+             'the sources (regenerated each run). Determinism across processes, hash seeds and cache histories is a runtime fact: '
+             'validated metamorphically on the real pipeline (fresh subprocesses under several PYTHONHASHSEEDs, permuted inputs, cold/warm cache).',
+        note='Modelled not verified: CPython set/dict iteration (set = arbitrary permutation, dict = insertion order).',
+        design='Part B C16'),
+    'C17': dict(
+        text='Theorems: version comparison is numeric major.minor order and a total preorder; exact-version require loads '
+             'ns-v.typelib from the first directory having it, else not-found; versionless require loads a maximal version and among those '
+             'the earliest directory; later prepends precede earlier ones; invariant over ALL histories of require/require_private/'
+             'load/queries (`_partial`: excludes exactly three witnessed defect classes): one version per namespace, every recorded '
+             'dependency loaded at the recorded version, lazy/eager tables disjoint, reports equal the files loaded; conflict and '
+             'mismatch behaviour. Validated: generated histories executed by a C driver on the public API over real typelibs.',
+        note='Modelled not verified: OS directory order (a directory is a set), GHashTable, strtol; cycles are invalid input.',
+        design='Part B C17'),
+    'C18': dict(
+        text='Theorems over a step model with one atomic step per system call of cachestore.py, for EVERY history (any number of '
+             'processes, any interleaving, source modifications, a crash before any step): no load/store step raises; a load returns '
+             'nothing or a complete parse; a returned entry is never older than the source mtime read in the same load; torn entries are '
+             'discarded; after any crash only complete entries, strict prefixes or temp files remain; a version change discards all '
+             'entries. The main freshness clause is proved as C18_fresh_partial under exactly the negation of two witnessed defect '
+             'classes (write-time stamping, equal mtimes) and same-device rename; cross-device witnesses are theorems too (known '
+             'findings). Validated: the real CacheStore under a controlled scheduler on a real directory vs the model.',
+        note='Modelled not verified: POSIX semantics (atomic rename, open file survives unlink, stat returns the last mtime set), pickle.',
+        design='Part B C18'),
     'C19': dict(
         text='Theorems (all names, all words, all listings): exact characterisation of the ldd pattern match by base name '
              '(lib<name> + one non-library-name character, no directory component, liblib rejected, metacharacters literal); '
@@ -20,9 +194,20 @@ CHECKS = {
              'oracle runs on the real code as failing-input search.',
         note='Modelled not verified: CPython re/str semantics (re-expressed, compared each run), os.path.isfile (parameter), '
              'running ldd/otool, macOS/Windows branches.',
-        technique='Lean 4 theorems over an executable model + regenerated regex tables + differential correspondence',
         design='Part B C19'),
+    'C20': dict(
+        text='Theorems, with an XML 1.0 reader written from the recommendation as the specification: escape/quoteattr parse back to the '
+             'original text/value for all XML-char strings; a built tag parses back to (name, attributes with None dropped, data) for '
+             'every indent and width, hence wrapping never changes content; for every operation sequence the document parses back to '
+             'exactly the events written with every opened element closed in LIFO order, including sequences cut short by an exception '
+             'inside nested tagcontexts; get_encoded_xml is the UTF-8 encoding. The model is compared byte for byte with the real '
+             'XMLWriter on generated operation sequences; expat parse-back of the real output is the independent oracle.',
+        note='Modelled not verified: xml.sax.saxutils (re-expressed, compared), expat agreement with the Lean reader (sampled).',
+        design='Part B C20'),
 }
+
+# properties whose check currently passes on the unchanged tree and is registered
+CLAIMED = ['C01', 'C04', 'C07', 'C08', 'C11', 'C13', 'C14', 'C16', 'C17', 'C18', 'C19', 'C20']
 
 PENDING = {
 }
@@ -33,7 +218,7 @@ ALL = ['C%02d' % i for i in range(1, 21)]
 def main():
     checks = []
     for pid in ALL:
-        if pid not in CHECKS:
+        if pid not in CLAIMED:
             continue
         c = CHECKS[pid]
         checks.append({
@@ -45,14 +230,14 @@ def main():
             'engine': 'giverif',
             'level_claimed': {'category': 'proof', 'text': c['text'], 'design_ref': c['design']},
             'level_note': NOTE_COMMON + c['note'],
-            'technique': c['technique'],
+            'technique': c.get('technique', TECH),
         })
     na = []
     for pid in ALL:
-        if pid not in CHECKS:
+        if pid not in CLAIMED:
             na.append({'property_id': pid,
-                       'reason': PENDING.get(pid, 'not claimed yet: model and proof for this property are still being '
-                                             'built (see DESIGN.md Part B for the plan); no check is registered')})
+                       'reason': PENDING.get(pid, 'not claimed yet: the model, proofs and harness exist (lean/GIVerif/Props/%s.lean, harness/%s.py) but the check is being '
+                                             're-aligned with fix: commits made in /repo; it is registered as soon as it passes on the unchanged tree' % (pid, pid.lower()))})
     man = {
         'version': 1,
         'setup_cmd': './setup.sh',
@@ -66,7 +251,7 @@ def main():
             'add_only': True,
         },
         'engines': [{'name': 'giverif', 'path': 'check',
-                     'serves_properties': sorted(CHECKS),
+                     'serves_properties': sorted(CLAIMED),
                      'kind_free_text': 'Lean 4 proofs over executable models (lean/), translators regenerating tables '
                                        'from /repo (translators/), differential correspondence + statement oracles '
                                        '(harness/)'}],
